@@ -145,6 +145,50 @@ def _simple(e):
     return False
 
 
+def _stdlib_method_names(tree, cls):
+    """names defined by the standard-library base classes of `cls` (resolved through the module's imports; the classes of this
+    module that `cls` derives from are followed)"""
+    import importlib
+    import sys as _sys
+    imported = {}
+    for st in ast.walk(tree):
+        if isinstance(st, ast.ImportFrom) and st.module and st.level == 0:
+            for al in st.names:
+                imported.setdefault(al.asname or al.name, (st.module, al.name))
+        elif isinstance(st, ast.Import):
+            for al in st.names:
+                imported.setdefault(al.asname or al.name.split(".")[0], (al.name if al.asname else al.name.split(".")[0], None))
+    # `Base = alias.Base` (a class picked from a module imported under an alias, Python 3 form first)
+    for st in ast.walk(tree):
+        if isinstance(st, ast.Assign) and len(st.targets) == 1 and isinstance(st.targets[0], ast.Name) and isinstance(st.value, ast.Attribute) and \
+                isinstance(st.value.value, ast.Name) and st.value.value.id in imported and imported[st.value.value.id][1] is None:
+            imported.setdefault(st.targets[0].id, (imported[st.value.value.id][0], st.value.attr))
+    local = dict((c.name, c) for c in tree.body if isinstance(c, ast.ClassDef))
+    std = getattr(_sys, "stdlib_module_names", frozenset())
+    out, seen, todo = set(), set(), [cls]
+    while todo:
+        c = todo.pop()
+        if c.name in seen:
+            continue
+        seen.add(c.name)
+        for b in c.bases:
+            if isinstance(b, ast.Name) and b.id in local:
+                todo.append(local[b.id])
+                continue
+            mod, attr = None, None
+            if isinstance(b, ast.Name) and b.id in imported:
+                mod, attr = imported[b.id]
+            elif isinstance(b, ast.Attribute) and isinstance(b.value, ast.Name) and b.value.id in imported:
+                mod, attr = imported[b.value.id][0], b.attr
+            if not mod or attr is None or mod.split(".")[0] not in std:
+                continue
+            try:
+                out |= set(n for n in dir(getattr(importlib.import_module(mod), attr)) if not (n.startswith("__") and n.endswith("__")))
+            except Exception:
+                continue
+    return out
+
+
 class _Inliner(object):
     def __init__(self, module_name, tree, known):
         self.m = module_name
@@ -159,8 +203,11 @@ class _Inliner(object):
             if isinstance(st, ast.FunctionDef) and st.name not in known:
                 self._add(("", st.name), st)
             elif isinstance(st, ast.ClassDef) and any(k.startswith(st.name + ".") for k in known):
+                hooks = _stdlib_method_names(tree, st)
                 for sub in st.body:      # a method added to a known class
                     if isinstance(sub, ast.FunctionDef) and ("%s.%s" % (st.name, sub.name)) not in known:
+                        if sub.name in hooks:
+                            continue     # an override of a standard-library method is not a helper: the closed-world rule W5 judges it
                         self._add((st.name, sub.name), sub)
         self._add_nested(tree)
         self._drop_recursive()
@@ -1547,12 +1594,20 @@ def _module_aliases(tree):
     return out
 
 
-def _top_level_bindings(tree):
-    """names bound at module level by def / class / assignment (not by import)"""
+def _top_level_bindings(tree, imports=False):
+    """names bound at module level by def / class / assignment (and, on request, by import: `import inspect` makes
+    `<module>.inspect` an attribute of the module as well)"""
     out = set()
     stack = list(tree.body)
     while stack:
         st = stack.pop()
+        if imports and isinstance(st, ast.Import):
+            for al in st.names:
+                out.add((al.asname or al.name).split(".")[0])
+        elif imports and isinstance(st, ast.ImportFrom):
+            for al in st.names:
+                if al.name != "*":
+                    out.add(al.asname or al.name)
         if isinstance(st, (ast.FunctionDef, ast.ClassDef)):
             out.add(st.name)
         elif isinstance(st, ast.Assign):
@@ -1619,7 +1674,11 @@ def import_foreign_helpers(trees):
                         local.add(n.name)
                 cp = copy.deepcopy(fn)
                 cp.name = new_name
-                cp.body = [_Qualify(_top_level_bindings(trees[src_mod]), f.value, local).visit(st) for st in cp.body]
+                # names the helper takes from its own module's top level: definitions, and imports the calling module does not
+                # have under the same name
+                dest_imports = _top_level_bindings(tree, imports=True) - _top_level_bindings(tree)
+                src_names = _top_level_bindings(trees[src_mod]) | ((_top_level_bindings(trees[src_mod], imports=True) - _top_level_bindings(trees[src_mod])) - dest_imports)
+                cp.body = [_Qualify(src_names, f.value, local).visit(st) for st in cp.body]
                 cp.args.defaults = [_Qualify(_top_level_bindings(trees[src_mod]), f.value, set()).visit(d) for d in cp.args.defaults]
                 ast.fix_missing_locations(cp)
                 copies[new_name] = cp
